@@ -50,6 +50,13 @@ claim("C16", "edge-cut reachability + phi provenance + fail-stop walk + publicat
       "Decides the ordering skeleton of follow mode on every path: sidecar only after a successful advancing apply, in-memory TXID only after a durable sidecar, only contiguous/extending files applied and the TXID advanced only on the apply's nil edge, apply syncs/verifies/syncs under the exclusive lock, the loop ends only on cancellation, and writer/reader agreement of the resume bound (defect F4 found and fixed). Convergence/byte equality are not decided.",
       _TB, "DESIGN.md 3/C16")
 
+claim("C12", "lockset dataflow (must/may held sets, wrapper summaries, interprocedural entry sets) over the SSA program",
+      "Decides, for every path and independent of schedule: lock pairing (no leaked lock, including the checkpoint-lock hand-off chain), required locksets at checkpoint/sync call sites, acyclicity of the lock-order graph, guarded-by discipline for a frozen table of shared fields, DB.Close teardown completeness and RegisterDB's single critical section. A violated guarded-by obligation is a possible data race; one confirmed family is recorded (F7). Races outside the table, channel/WaitGroup deadlocks and the post-state (C01/C02) are not decided.",
+      _TB, "DESIGN.md 3/C12")
+claim("C14", "closed-world SQL statement inventory + provenance + rollback-on-all-paths",
+      "Decides over the whole production program that the only statements ever issued on the source handle are the enumerated constant statements on litestream's own two tables, the three PRAGMAs and SELECTs, that no transaction is ever committed and every transaction on the source is rolled back on every path, that the database file handle is read-only and no path derived from the source path is created/removed/renamed. SQLite honouring the statements is assumed.",
+      _TB, "DESIGN.md 3/C14")
+
 _pending = "check not built yet in this revision (planned, see DESIGN.md section 3); not claimed until its rules run clean on the unchanged tree"
-for _p in ["C04","C06","C12","C13","C14","C18"]:
+for _p in ["C04","C06","C13","C18"]:
     na(_p, _pending)
